@@ -8,33 +8,69 @@
 (* printed once as  <<"REPLAY", ToJson(hist)>>.                            *)
 (* GenDepth and the machine selection come from the environment            *)
 (* (GEN_DEPTH, GEN_MACHINE) so that one .cfg serves all tiers.             *)
+(* Besides "all" | "log" | "event" | "dumps", GEN_MACHINE may name a       *)
+(* DIRECTED mode in which the walk is confined to one scenario family:     *)
+(*  "evstop"    the event machine doing push -> (tick) -> stop -> restart  *)
+(*              cycles: stop only with events still queued, restart only   *)
+(*              after a stop; the directories found are below, at and      *)
+(*              beyond the cap, so most walks stop over a FULL directory   *)
+(*  "logfault"  the log machine with the rename fault switched on as soon  *)
+(*              as a current file exists, kept on until writes have been   *)
+(*              refused at least once (cur >= Limit), then anything        *)
 (***************************************************************************)
 EXTENDS DiskBounds, Json, IOUtils
 
 VARIABLE hist
 gvars == <<vars, hist>>
 
-GenMachine == IF "GEN_MACHINE" \in DOMAIN IOEnv THEN IOEnv.GEN_MACHINE ELSE "all"
+GenMode == IF "GEN_MACHINE" \in DOMAIN IOEnv THEN IOEnv.GEN_MACHINE ELSE "all"
+GenMachine == CASE GenMode = "evstop" -> "event"
+                [] GenMode = "logfault" -> "log"
+                [] OTHER -> GenMode
 GenDepth == IF "GEN_DEPTH" \in DOMAIN IOEnv THEN atoi(IOEnv.GEN_DEPTH) ELSE 12
 
-\* expected abstract state AFTER the step (primed variables), as compared with the directory listings
+\* expected abstract state AFTER the step (primed variables), as compared with the directory listings;
+\* refused: the write is expected to be refused (roll needed while the rename fails)
 After(o, k) == [op |-> o, n |-> k, arch |-> arch', cur |-> cur', ev |-> evFiles', q |-> evQueue',
-                wrote |-> IF evFiles' > evFiles THEN evQueue ELSE 0, dumps |-> dumps']
+                wrote |-> IF evFiles' > evFiles THEN evQueue ELSE 0, dumps |-> dumps',
+                refused |-> (o = "write" /\ ShouldRoll /\ rollFails), pin |-> rollFails', run |-> evRun']
 Log(o, k) == hist' = Append(hist, After(o, k))
 
 GInit == /\ Init
          /\ hist = << [op |-> "init", n |-> 0, arch |-> arch, cur |-> cur, ev |-> evFiles, q |-> 0,
-                       wrote |-> 0, dumps |-> dumps] >>
+                       wrote |-> 0, dumps |-> dumps, refused |-> FALSE, pin |-> FALSE, run |-> TRUE] >>
+
+Unpinned == \E i \in DOMAIN hist : hist[i].op = "unpin"
+\* which operations a directed mode lets through (undirected modes: all of them)
+Allowed(o) ==
+  CASE GenMode = "evstop" ->
+         CASE o = "push" -> evRun
+           [] o = "tick" -> evRun /\ evQueue > 0
+           [] o = "stop" -> evRun /\ evQueue > 0
+           [] o = "restart" -> ~evRun
+           [] OTHER -> FALSE
+    [] GenMode = "logfault" ->
+         CASE o = "write" -> rollFails \/ cur < 0 \/ Unpinned
+           [] o = "pin" -> TRUE
+           [] o = "unpin" -> cur >= Limit
+           [] o = "restart" -> rollFails \/ Unpinned
+           [] OTHER -> FALSE
+    [] OTHER -> TRUE
 
 GNext ==
   /\ Len(hist) <= GenDepth
-  /\ \/ \E n \in 1..MaxWrite : /\ (LogWriteNoRoll(n) \/ LogWriteRollKeep(n) \/ LogWriteRollTrim(n))
+  /\ \/ \E n \in 1..MaxWrite : /\ Allowed("write")
+                               /\ \/ LogWriteNoRoll(n) \/ LogWriteRollKeep(n) \/ LogWriteRollTrim(n)
+                                  \/ LogWriteRollFails(n)
                                /\ Log("write", n)
-     \/ \E k \in 1..MaxPush : EvPush(k) /\ Log("push", k)
-     \/ (EvTickIdle \/ EvTickWrite \/ EvTickDrop) /\ Log("tick", 0)
-     \/ \E k \in 1..2 : EvReaderRemove(k) /\ Log("remove", k)
-     \/ (DumpWriteKeep \/ DumpWriteTrim) /\ Log("dump", 0)
-     \/ Restart /\ Log("restart", 0)
+     \/ Allowed("pin") /\ LogFaultOn /\ Log("pin", 0)
+     \/ Allowed("unpin") /\ LogFaultOff /\ Log("unpin", 0)
+     \/ \E k \in 1..MaxPush : Allowed("push") /\ (EvPush(k) \/ EvPushClosed(k)) /\ Log("push", k)
+     \/ Allowed("tick") /\ (EvTickIdle \/ EvTickWrite \/ EvTickDrop \/ EvTickStopped) /\ Log("tick", 0)
+     \/ Allowed("stop") /\ EvStop /\ Log("stop", 0)
+     \/ \E k \in 1..2 : Allowed("remove") /\ EvReaderRemove(k) /\ Log("remove", k)
+     \/ Allowed("dump") /\ (DumpWriteKeep \/ DumpWriteTrim) /\ Log("dump", 0)
+     \/ Allowed("restart") /\ Restart /\ Log("restart", 0)
 
 GSpec == GInit /\ [][GNext]_gvars
 
